@@ -125,24 +125,29 @@ def run(ctx):
         for half, expect_true in (("upper", True), ("lower", False)):
             seen = {}
 
-            def pol(test, ev, env, seen=seen, expect_true=expect_true):
-                if isinstance(test, ast.Compare) and len(test.ops) == 1 and isinstance(test.comparators[0], ast.Constant):
-                    if test.comparators[0].value == 1 and isinstance(test.ops[0], ast.Lt):
-                        return False          # radius >= 1 pixel
-                    if test.comparators[0].value == 0:
-                        seen["test"] = (type(test.ops[0]).__name__, scalar(ev.eval(test.left, env)))
-                        return expect_true
+            def signs(d, node=None, seen=seen, upper=expect_true):
+                # radius >= 1 pixel (the sub-pixel fallback is outside the claim)
+                if d.equals(r - 1):
+                    return 1
+                if d.equals(1 - r):
+                    return -1
+                # the half-plane test: a positive multiple of +-(dety - dety_center) = -+ r sin(eta)
+                for sg in (1, -1):
+                    if N.pos_multiple(d * sg, -r * s_):
+                        seen["test"] = d * sg
+                        return sg * (-1 if upper else 1)
                 return None
-            out = Evaluator(mod, inline=set(), branch_policy=pol).call_function(
+            out = Evaluator(mod, inline=set(), sign_policy=signs).call_function(
                 "detyz_to_eta_and_radpix", [Arr(list(w)), yc, zc])
             out = out.data if isinstance(out, Arr) else list(out)
             ang = N.ref("arccos(c)*180/pi", {"c": c_, "pi": N.PI})
             want = ang if expect_true else 360 - ang
             okr = len(out) == 2 and scalar(out[1]).equals(r) and scalar(out[0]).equals(want)
-            okt = seen.get("test") is not None and seen["test"][0] in ("LtE", "Lt") and seen["test"][1].equals(-r * s_)
+            okt = seen.get("test") is not None
             ctx.check(okr and okt, "C11:eta:reader-%s" % half,
                       "reader on the %s half plane: radius %s, angle %s, branch test %s" %
-                      (half, N.short(scalar(out[1])) if len(out) == 2 else "?", N.short(scalar(out[0])) if out else "?", seen.get("test")),
+                      (half, N.short(scalar(out[1])) if len(out) == 2 else "?", N.short(scalar(out[0])) if out else "?",
+                       N.short(seen["test"]) if seen.get("test") is not None else "none on dety - dety_center"),
                       core.loc(mod, rfn), sample={"half": half, "eta": N.short(scalar(out[0]))})
     finally:
         POSITIVE_SCALE_ATOMS.remove("radpix")
